@@ -275,9 +275,7 @@ class PyInterp:
                 if isinstance(e.op, ast.Mod):
                     return a % b
                 if isinstance(e.op, ast.Div):
-                    if isinstance(a, (int, Fraction)) and isinstance(b, (int, Fraction)) and not isinstance(a, bool):
-                        return Fraction(a) / b
-                    return a / b
+                    return a / b  # (as the language does: two integers give a float)
                 if isinstance(e.op, ast.Pow):
                     return a ** b
                 if isinstance(e.op, ast.BitAnd):
@@ -440,6 +438,11 @@ class PyInterp:
                     raise Raised(type(ex).__name__)
             raise NotEvaluable(f"call of {f.id}")
         if isinstance(f, ast.Attribute):
+            if self.leaf is not None:
+                fv_ = self.leaf(f, env)  # (a modelled library function: `os.link`, `shutil.copy`)
+                if callable(fv_):
+                    args, kwargs = self._args(c, env)
+                    return self._host_call(fv_, args, kwargs)
             base = self.eval(f.value, env)
             meth = f.attr
             ok = (isinstance(base, list) and meth in _LIST_METHODS) or (isinstance(base, dict) and meth in _DICT_METHODS) \
@@ -769,8 +772,6 @@ class PyInterp:
             if isinstance(op, ast.Mod):
                 return a % b
             if isinstance(op, ast.Div):
-                if isinstance(a, (int, Fraction)) and isinstance(b, (int, Fraction)) and not isinstance(a, bool):
-                    return Fraction(a) / b
                 return a / b
             if isinstance(op, ast.BitOr):
                 return a | b
